@@ -112,10 +112,28 @@ func (e *Engine) helperGuards(g Guard) []Guard {
 		return nil
 	}
 	rets := Returns(fn)
+	hfa := e.FA(fn)
+	if len(rets) > 1 {
+		// early-return style (`if a { return true }; if b { return true }; return c`): when exactly one return can
+		// give the outcome we know, the guards that dominate it hold, and so does what its own value implies
+		var cand []*ssa.Return
+		for _, r := range rets {
+			if k, isC := r.Results[0].(*ssa.Const); isC {
+				if (k.Value.ExactString() == "true") == g.Pos {
+					cand = append(cand, r)
+				}
+				continue
+			}
+			cand = append(cand, r)
+		}
+		if len(cand) != 1 {
+			return nil
+		}
+		rets = cand
+	}
 	if len(rets) != 1 {
 		return nil
 	}
-	hfa := e.FA(fn)
 	m := map[string]*Term{}
 	args := c.CallArgsT()
 	for i, p := range fn.Params {
@@ -124,7 +142,16 @@ func (e *Engine) helperGuards(g Guard) []Guard {
 		}
 	}
 	var guards []Guard
+	guards = append(guards, hfa.GuardsOf(rets[0])...)
 	v := rets[0].Results[0]
+	if _, isC := v.(*ssa.Const); isC {
+		var out []Guard
+		for _, hg := range guards {
+			hg.Cond = subst(hg.Cond, m)
+			out = append(out, hg)
+		}
+		return out
+	}
 	for {
 		u, isNot := v.(*ssa.UnOp)
 		if !isNot || u.Op != token.NOT {
